@@ -113,6 +113,8 @@ def gen_exotic(rng):
     kinds = [k if k in ("field", "keyword") else "field" for k in kinds]
     kinds, cfg, docs, _ = qtree.gen_catalog_x(rng, total, kinds=kinds, twocat=twocat,
                                               ndocs=rng.choice([1, 3, 5, 8, 12, 25, 60]), idrange=80)
+    if "keyword" in kinds and rng.random() < 0.4:
+        cfg = cfg + [["cfg", "normkw", 1]]
     has_none = {c[1]: True for c in docs if c[3:] == ["none"]}
     cmds = list(docs)
     for _ in range(rng.randrange(3, 8)):
